@@ -8,6 +8,7 @@
 From Coq Require Import ZArith List Bool.
 From LV Require Import Base.Lin Base.Conc Base.Events Spec.Specs Proofs.LinProofs Proofs.SkipListLin Proofs.SkipSeqEncoding
   Model.SkipList Proofs.SkipListProofs.
+From LV Require Model.Ellen Proofs.EllenProofs.
 Import ListNotations.
 Local Open Scope Z_scope.
 
@@ -201,3 +202,60 @@ Example C15_skip_model_nonvacuous :
   existsb (fun e => match snd e with EvAcc KCas _ false => true | _ => false end) (fst r) = true /\
   lincheck SetSpec (client_history (prefill_nodes [1; 1; 0; 0; 0]) (fst r)) = true.
 Proof. vm_compute. repeat split. Qed.
+
+(** * Part 3: the step-grain model of cds::intrusive::EllenBinTree<HP> (Model/Ellen.v; tied to the real code by the step
+    correspondence of checks/C15.py, harness/C15/step_ellen.cpp: same programs, same schedules, every atomic access
+    compared; the model also evaluates the BST check after every step of those runs).
+
+    NOTE: this implementation has no helping (help() is commented out in ellen_bintree.h): a search that meets a
+    DFlag / Mark restarts, an update that meets a non-Clean update word retries, and the flag / child CAS / unflag steps
+    of an operation are all executed by the thread that flagged.
+
+    [EllenProofs.T g n lo hi]: the subtree of n is a leaf-oriented binary search tree with all keys in [lo, hi): keys
+    of the left subtree < key of the node <= keys of the right subtree; the keys Inf1 = 1000 < Inf2 = 1001 are above
+    every real key.
+
+    For EVERY schedule, any number (<= 63) of threads, any client programs of insert / contains (keys 0..7), any
+    pre-filled tree that passes the decidable check [init_check] (all pre-filled trees of the correspondence runs do):
+    at every reachable state — also in the middle of operations — the tree reachable from m_Root is a BST.
+    (Owicki–Gries proof: a node that was on the search path of k stays on it — no node is ever removed —, so the
+    child CAS of help_insert replaces a leaf in whose key range k lies.) *)
+Theorem C15_ellen_bst_invariant :
+  forall (fuel : nat) (keys : list nat) (ths : list (list Ellen.op)) c,
+    EllenProofs.init_check (Ellen.init keys) = true -> Forall (Forall EllenProofs.op_ok) ths -> (length ths <= 63)%nat ->
+    Conc.reach (Ellen.init_cfg fuel keys ths) c ->
+    EllenProofs.T (Conc.shared c) Ellen.root (-1) 1002.
+Proof. exact EllenProofs.ellen_bst_invariant. Qed.
+Print Assumptions C15_ellen_bst_invariant.
+
+Theorem C15_ellen_prefilled_trees_pass_init_check :
+  forallb (fun m => EllenProofs.init_check (Ellen.init (Ellen.prefill_keys [Z.of_nat m]))) (seq 0 16) = true.
+Proof. exact EllenProofs.init_check_prefills. Qed.
+Print Assumptions C15_ellen_prefilled_trees_pass_init_check.
+
+(** the executable monitor of the correspondence runs implies [T] *)
+Theorem C15_ellen_monitor_sound : forall g, Ellen.tree_ok g = true -> EllenProofs.T g Ellen.root (-1) 1002.
+Proof. exact EllenProofs.tree_ok_T. Qed.
+Print Assumptions C15_ellen_monitor_sound.
+
+(** erase: the ONE step of erase that changes the tree — the child CAS of help_marked, which replaces the parent p of
+    the deleted leaf by the other child of p — preserves the BST invariant, for any directions d, d'.  That its
+    precondition holds at every reachable state of programs WITH erase (the DFlag / Mark protocol and the version
+    counter of the update word) is NOT proved; it is checked by the monitor at every step of the correspondence runs. *)
+Theorem C15_ellen_delete_cas_preserves_bst :
+  forall (g : Ellen.G) (gp : Ellen.ptr) (d : bool) (p : Ellen.ptr) (d' : bool) (lo hi : Z) (n : Ellen.ptr),
+    EllenProofs.T g n lo hi -> Ellen.child g gp d = p -> EllenProofs.internal g p -> p <> gp ->
+    EllenProofs.T (Ellen.set_child g gp d (Ellen.child g p d')) n lo hi.
+Proof. intros. now apply EllenProofs.T_delete. Qed.
+Print Assumptions C15_ellen_delete_cas_preserves_bst.
+
+(** non-vacuity: a contended model run of three inserting threads (round-robin) whose flag CASes fail; the BST monitor
+    holds at every step, and the hypotheses of the theorem hold *)
+Example C15_ellen_model_nonvacuous :
+  let ths := [[[1;2]; [1;0]; [10;1]]; [[1;2]; [1;1]; [10;2]]; [[1;0]; [1;3]; [10;0]]] in
+  let r := Ellen.run_case [2] ths [] 20000 in
+  snd r = true /\
+  existsb (fun e => match snd e with EvAcc KCas _ false => true | _ => false end) (fst r) = true /\
+  existsb (fun e => Nat.eqb (fst e) 99) (fst r) = false /\      (* the monitor event is tagged with thread id 99 *)
+  forallb (fun os => forallb (fun o => match o with Ellen.OErase _ => false | _ => true end) os) (map Ellen.decode_ops ths) = true.
+Proof. vm_compute. repeat split; reflexivity. Qed.
